@@ -59,6 +59,14 @@ def in_alpha(s: str, alpha: str) -> bool:
     return all(c in alpha for c in s)
 
 
+def concrete_int(x: int, lo: int, hi: int) -> int:
+    """Return x as a plain Python int (the solver forks once per value in lo..hi)."""
+    for k in range(lo, hi + 1):
+        if x == k:
+            return k
+    raise ValueError("concrete_int: value outside the stated range")
+
+
 def seed() -> int:
     try:
         return int(os.environ.get("VERIF_SEED", "0") or 0)
